@@ -1600,12 +1600,6 @@ impl TypeChecker {
                         ));
                     }
 
-                    self.env.add_scheme(
-                        parameter.to_compact_string(),
-                        TypeScheme::make_quantified(parameter_type.clone()),
-                        *parameter_span,
-                        false,
-                    );
                     typed_parameters.push((
                         *parameter_span,
                         *parameter,
@@ -1663,6 +1657,19 @@ impl TypeChecker {
                         examples: crate::decorator::examples(decorators),
                     },
                 );
+
+                // The parameters live in a scope of their own inside the one that holds
+                // the function itself: a parameter shadows a function of the same name
+                // (also this function).
+                self.env.save();
+                for (parameter_span, parameter, parameter_type, _) in &typed_parameters {
+                    self.env.add_scheme(
+                        parameter.to_compact_string(),
+                        TypeScheme::make_quantified(parameter_type.clone()),
+                        *parameter_span,
+                        false,
+                    );
+                }
 
                 let mut typed_local_variables = vec![];
                 for local_variable in local_variables {
@@ -1744,6 +1751,9 @@ impl TypeChecker {
 
                 self.add_equal_constraint(&return_type_inferred, &return_type)
                     .ok();
+
+                // Leave the scope of the parameters and local variables
+                self.env.restore();
 
                 // Copy identifier for the new function into local env:
                 let (signature, metadata) = self.env.get_function_info(function_name).unwrap();
